@@ -345,6 +345,7 @@ _sf("C14", "recording", ["mixed"],
     "must not decrease; the time-weighted mean of a single recording window must equal the harness' own integral of the state.")
 
 _add_job("C12", J("exp-queues-in-concurrent-trials", "expcheck", "rel", 2, 24, 3000, timeout=300, chunk=2, claim="C12/concurrent-trials/"))
+_add_job("C12", J("pq-2^31-objects-through-one-queue", "expcheck", "rel", 6, 3, 12, timeout=3600, chunk=1))
 _add_job("C12", J("exp-queues-in-concurrent-trials-tsan", "expcheck", "tsan", 2, 4, 100, timeout=600, chunk=1, claim="C12/concurrent-trials/"))
 _add_job("C01", J("exp-event-queues-in-concurrent-trials", "expcheck", "rel", 4, 24, 2000, timeout=300, chunk=2, claim="C01/concurrent-trials/"))
 _add_job("C01", J("exp-event-queues-in-concurrent-trials-tsan", "expcheck", "tsan", 4, 4, 100, timeout=600, chunk=1, claim="C01/concurrent-trials/"))
@@ -391,6 +392,8 @@ PROPS["C10"] = {
            J("sf-directed-same-instant-restart-asan", "simfuzz", "asan", 106, 168, 1344, timeout=120),
            J("sf-directed-reaped-jobs-asan", "simfuzz", "asan", 107, 90, 900, timeout=120),
            J("sf-directed-reaped-jobs-rel", "simfuzz", "rel", 107, 90, 900),
+           J("sf-directed-objects-that-go-away-asan", "simfuzz", "asan", 108, 48, 240, timeout=120),
+           J("sf-directed-objects-that-go-away-rel", "simfuzz", "rel", 108, 48, 240),
            J("sf-directed-tag-pools-asan", "simfuzz", "asan", 101, 2, 8, timeout=300),
            J("sf-directed-tag-pools-rel", "simfuzz", "rel", 101, 2, 8, timeout=300)]
         + [J("sf-mixed-memcheck", "simfuzz", "rel", 11, 64, 2000, timeout=600, extra=_VG, chunk=4),
